@@ -143,7 +143,12 @@ func B(b bool) int64 {
 // executes the real code on them, Laws (optional) derives law cases from the
 // implementation's results.  -replay re-runs the cases of a replay/corpus file.
 type Harness struct {
-	Run  func(sel int, in []int64) []int64
+	Run func(sel int, in []int64) []int64
+	// Run2 (alternative to Run) may extend the input with what the execution itself chose
+	// (e.g. the oracle choices reconstructed from the observed trace): the returned modelIn
+	// replaces the case input, so that the model replays exactly this execution.  On replay
+	// only the spec prefix of a stored input is used; the execution decides the rest again.
+	Run2 func(sel int, in []int64) (modelIn []int64, got []int64)
 	Laws func(sel int, in, got []int64, law func(lsel int, lin []int64, sig string))
 	Gen  func(rng *Rng, n int, emit func(id string, sel int, in []int64, kind string, nontrivial bool, desc any))
 }
@@ -161,8 +166,13 @@ func (h Harness) Main() {
 					c.Got = []int64{}
 				}
 			}()
-			c.Got = h.Run(sel, in)
+			if h.Run2 != nil {
+				c.In, c.Got = h.Run2(sel, in)
+			} else {
+				c.Got = h.Run(sel, in)
+			}
 		}()
+		in = c.In
 		w.Put(c)
 		if c.Panic != "" || h.Laws == nil {
 			return
